@@ -1056,10 +1056,21 @@ def _(M, a, c):
     elif opn == 'sub': neg = M.binop('Lt', x, Int(x.w, x.s, 0))
     else: neg = bnot(beq(M.binop('Lt', x, Int(x.w, x.s, 0)), M.binop('Lt', y, Int(y.w, y.s, 0))))
     return mn if M.branch(neg) else mx
-@model_re(r'^core::num::<impl i(8|16|32|64|128|size)>::(rem_euclid|div_euclid|abs|wrapping_abs|checked_abs|wrapping_neg|checked_neg|signum)$')
+@model_re(r'^core::num::<impl i(8|16|32|64|128|size)>::(rem_euclid|div_euclid|wrapping_rem_euclid|wrapping_div_euclid|checked_rem_euclid|checked_div_euclid|abs|wrapping_abs|checked_abs|wrapping_neg|checked_neg|signum)$')
 def _(M, a, c):
     fn = norm_name(c).split('::')[-1]
     x, y = _int_args(a); mn, mx = _minmax(x); zero0 = Int(x.w, x.s, 0)
+    if fn.endswith('_euclid') and fn.startswith(('wrapping_', 'checked_')):
+        kind, base = fn.split('_', 1)
+        zero, ovf = _divrem_bad(M, x, y)
+        if M.branch(zero):
+            if kind == 'checked': return NONE()
+            raise Panic("attempt to divide by zero (euclid)")
+        if M.branch(ovf):
+            if kind == 'checked': return NONE()
+            return zero0 if base == 'rem_euclid' else mn          # MIN / -1 wraps
+        r0 = M.do_call('core::num::<impl i%d>::%s' % (x.w, base), [x, y], None)
+        return some(r0) if kind == 'checked' else r0
     if fn in ('rem_euclid', 'div_euclid'):
         zero, ovf = _divrem_bad(M, x, y)
         if M.branch(zero): raise Panic("attempt to divide by zero (euclid)")
